@@ -460,7 +460,7 @@ class G:
         if self.pr("ghosts", 0.08):
             ded = (self.ch(cparts) + "| ") if self.pr("dedicated", 0.25) else ""
             nm = "ghosts" if not self.pr("ghost_flavour", 0.3) else self.ch(["ghosts_owned", "ghosts_ref"])
-            gs = ", ".join(self.ch([f"X{k}: {{ E::V0 }}", f"Y{k}(..): {{ todo!() }}", f"Z{k}{{ a, .. }}: {{ E::V1(a) }}", f"W{k}: {{ @.def() }}"]) for k in range(r.randrange(1, 3)))
+            gs = ", ".join(self.ch([f"X{k}: {{ E::V0 }}", f"Y{k}(..): {{ todo!() }}", f"Z{k}{{ a, .. }}: {{ E::V1(a) }}", f"W{k}: {{ @.def() }}"] + ([f"{k}: {{ E::V0 }}"] if self.pr("enum_ghost_idx", 0.0) else [])) for k in range(r.randrange(1, 3)))
             attrs.append(Instr(nm, ded + gs, tag=("ghosts", None)))
         vs = []
         nv = r.randrange(self.p.get("min_variants", 1), self.p.get("max_variants", 4) + 1)
@@ -475,6 +475,8 @@ class G:
                     vat.append(Instr("pattern", self.ch([f"{k}..={k + 5}", f"{k} | {k + 100}", "_", f"\"a{k}\" | \"b\"", f"x if x > {k}", f"..={k}"]), tag=("pat", None)))
                     if self.pr("pat_into", 0.8):
                         vat.append(Instr(self.ch(["into", "owned_into", "ref_into"]), "{ " + str(k) + " }", tag=("mmap", None)))
+                if self.pr("prim_ghost", 0.0):
+                    vat.append(self.ghost_instr(cparts, with_default=self.pr("ghost_default", 0.7)))
             else:
                 if self.pr("variant_ghost", 0.08):
                     vat.append(self.ghost_instr(cparts, with_default=self.pr("ghost_default", 0.7)))
@@ -595,7 +597,7 @@ class G:
             if ghost_only:
                 keep.append(ghost_only)
             ded = (self.ch(cparts) + "| ") if self.pr("dedicated", 0.25) else ""
-            attrs.append(Instr("child_parents", ded + ", ".join(".".join(pth) + ": " + self.ch(["P", "m::Q", "R<T>"]) + self.ch(["", "", " as {}", " as ()"]) for pth in keep), tag=("cp", None)))
+            attrs.append(Instr("child_parents", ded + ", ".join(".".join(pth) + ": " + self.ch(["P", "m::Q", "R<T>"]) + (self.ch(["", "", " as {}", " as ()"]) if not self.pr("cp_unit", 0.0) else " as Unit") for pth in keep), tag=("cp", None)))
             if self.pr("second_cp", 0.3):
                 c = self.ch(cparts)
                 other = "" if ded else (c + "| ")
@@ -720,7 +722,7 @@ PROFILES = {
              "default_case": 0.3, "fallible": 0.35, "multi_cpart": 0.25, "dedicated": 0.3, "variant_ghosts": 0.08, "ghost_field": 0.1, "try_pair": 0.12},
     "enum-members": {"max_variants": 3, "payload_heavy": 0.85, "member_instr": 0.55, "member_try": 0.4, "try_pair": 0.35, "fallible": 0.6, "dedicated": 0.3,
                      "multi_cpart": 0.3, "type_hint": 0.25, "multi_instr": 0.5, "ghost_field": 0.1, "variant_map": 0.2},
-    "enum-prim": {"enum_prim": 1.0, "max_variants": 5, "default_case": 0.6, "fallible": 0.4, "lit": 0.6, "pat": 0.7},
+    "enum-prim": {"enum_prim": 1.0, "max_variants": 5, "default_case": 0.6, "fallible": 0.4, "lit": 0.6, "pat": 0.7, "prim_ghost": 0.12},
     "tree": {"max_fields": 6, "max_depth": 3, "member_instr": 0.3, "fallible": 0.3, "multi_cpart": 0.3, "hints": 0.2, "ghosts": 0.2, "dedicated": 0.25, "mixed_levels": 0.3, "child_ghosts_ded": 0.35, "ghost_only_child": 0.2, "generic_cpart": 0.15},
     "trait-params": {"max_fields": 3, "vars": 0.5, "attr_params": 0.4, "update": 0.3, "quick_return": 0.2, "default_case": 0.4, "trait_repeat": 0.3,
                      "multi_instr": 0.7, "fallible": 0.4, "member_instr": 0.3},
@@ -737,7 +739,8 @@ PROFILES = {
     "shape-change": {"shape_change": 0.8, "shape_ghost": 0.3, "fallible": 0.3, "max_variants": 3, "variant_map": 0.1, "member_try": 0.1, "multi_instr": 0.5},
     "unknowns": {"unknowns": 1.0, "max_fields": 3, "member_instr": 0.3, "multi_instr": 0.5, "max_variants": 3, "variant_map": 0.2},
     "faults": {"max_fields": 3, "member_instr": 0.4, "multi_cpart": 0.3, "fallible": 0.4, "drop_err": 0.15, "extra_err": 0.1, "ghost_field": 0.2, "ghost_default": 0.5,
-               "dedicated": 0.4, "ghosts": 0.2, "where_clause": 0.2, "hints": 0.4, "drop_child_parents": 0.3, "drop_cp_entry": 0.2, "type_hint": 0.3},
+               "dedicated": 0.4, "ghosts": 0.2, "where_clause": 0.2, "hints": 0.4, "drop_child_parents": 0.3, "drop_cp_entry": 0.2, "type_hint": 0.3,
+               "cp_unit": 0.08, "enum_ghost_idx": 0.3},
 }
 
 KINDS_OF_ITEM = {"shape-change": ["struct", "enum"], "unknowns": ["struct", "enum"], "parents": ["tree"], "trait-repeat": ["trait_repeat"], "enum": ["enum"], "enum-members": ["enum"], "enum-prim": ["enum"], "tree": ["tree"], "repeat": ["struct", "enum"], "multi-counterpart": ["struct", "enum", "tree"],
